@@ -398,24 +398,38 @@ class DocSim(core.Engine):
             return [], None
         V = list(eff.viol)
         what = f'{eff.kind} on {eff.target}'
-        if eff.outcome == 'raised' and not V:
-            # a refusal: the call must have been a no-op (C19)
-            if op.get('must_raise') is not None:
-                pass
-            V.extend(self.noop_check(sess, snap, step, f'refused {what} ({type(eff.exc).__name__}: {str(eff.exc)[:80]})', 'C19', 'refusal_not_noop', True))
-            if not V:
+
+        # Clauses that fire at the same step are independent (first-violation rule, DESIGN §3.6): every
+        # invariant group is evaluated even when another one already fired.  An invariant evaluator that
+        # itself trips over a state another clause has already shown to be corrupt is ignored.
+        def group(fn) -> None:
+            try:
+                V.extend(fn())
+            except core.HarnessError:
+                raise
+            except Exception:
+                if not V:
+                    raise
+
+        def refusal() -> list:
+            out = self.noop_check(sess, snap, step, f'refused {what} ({type(eff.exc).__name__}: {str(eff.exc)[:80]})', 'C19', 'refusal_not_noop', True)
+            if not out:
                 for key, (node, _, _) in snap.items():
                     cur = sess.root if key == 'doc' else (sess.pool[key] if key < len(sess.pool) else None)
                     if cur is not None and W.fingerprint(cur) != fps[key]:
-                        V.append(Violation('C19', 'refusal_changed_tree', step, f'refused {what}: tree of {"document" if key == "doc" else f"pool[{key}]"} changed'))
+                        out.append(Violation('C19', 'refusal_changed_tree', step, f'refused {what}: tree of {"document" if key == "doc" else f"pool[{key}]"} changed'))
                         break
+            return out
+
+        op_failed = bool(eff.viol) and not eff.fault     # an exception that is not a catalogued refusal
+        if eff.outcome == 'raised' and not op_failed:
+            group(refusal)       # a refusal: the call must have been a no-op (C19)
         elif eff.outcome != 'raised' and op.get('must_raise'):
             V.append(Violation('C19', 'attached_node_accepted', step, f'{what}: a node that already lives elsewhere was accepted ({op.get("must_raise")})'))
-        if not V and eff.noop_expected and eff.outcome == 'ok':
-            strict = eff.cls not in ('C',)
-            V.extend(self.noop_check(sess, snap, step, what, 'C04', 'non_edit_changed_document', strict))
-        if not V and eff.outcome != 'raised':
-            V.extend(self.iso_check(sess, snap, step, eff.touched, what))
+        if eff.noop_expected and eff.outcome == 'ok':
+            group(lambda: self.noop_check(sess, snap, step, what, 'C04', 'non_edit_changed_document', eff.cls not in ('C',)))
+        if eff.outcome != 'raised':
+            group(lambda: self.iso_check(sess, snap, step, eff.touched, what))
         # prune dead bookkeeping
         sess.recent = [r for r in sess.recent[-6:] if live(r)]
         if eff.wrapper_replaced is not None:
@@ -428,27 +442,30 @@ class DocSim(core.Engine):
                     if base == raw_name:
                         sess.handles[k] = None
                         sess.stats['handle_dropped_wrapper_replaced'] += 1
-        if not V:
-            V.extend(self.check_stores(sess, step, eff.touched))
-        if not V:
+        group(lambda: self.check_stores(sess, step, eff.touched))
+
+        def trees() -> list:
             for key, node in sess.roots():
                 # a node is complete and self-contained when it enters the pool (pop, copy, construction);
                 # later spacing edits at its edges may legitimately grow its store
-                V.extend(W.check_tree(node, step, standalone=(key == 'doc' or key not in snap),
-                                      label='doc' if key == 'doc' else f'pool[{key}]'))
-                if V:
-                    break
-        if not V:
+                out = W.check_tree(node, step, standalone=(key == 'doc' or key not in snap), label='doc' if key == 'doc' else f'pool[{key}]')
+                if out:
+                    return out
+            return []
+
+        def owners() -> list:
             for key, node in sess.roots():
-                V.extend(W.check_ownership(node, step, label='doc' if key == 'doc' else f'pool[{key}]'))
-                if V:
-                    break
-        if not V:
-            V.extend(self.check_views(sess, step))
-        if not V and profile.get('reparse') and eff.outcome == 'ok' and not eff.noop_expected:
-            V.extend(self.check_reparse(sess, step, eff))
-        if not V and S is not None and eff.outcome == 'ok':
-            V.extend(self.eq_check(sess, S, step, eff))
+                out = W.check_ownership(node, step, label='doc' if key == 'doc' else f'pool[{key}]')
+                if out:
+                    return out
+            return []
+        group(trees)
+        group(owners)
+        group(lambda: self.check_views(sess, step))
+        if profile.get('reparse') and eff.outcome == 'ok' and not eff.noop_expected:
+            group(lambda: self.check_reparse(sess, step, eff))
+        if S is not None and eff.outcome == 'ok':
+            group(lambda: self.eq_check(sess, S, step, eff))
         if V:
             fids = [findings.match(v, sess, op) for v in V]
             if all(fids):
